@@ -15,53 +15,68 @@ DerivedCall     _DerivedMetric.__call__: keyword routing (sample params / `metho
 import z3
 from z3 import And, BoolVal, Not, Or, String, StringVal
 
-from ..pyvc.core import Abstract, Contract, Obj, PyDict, PyList, Unsupported, is_z3
+from ..pyvc.core import Abstract, Contract, Obj, PyDict, PyList, Unsupported, is_z3, lift
+from .ndmodel import GI, GJ, Nd, NdContract, in_range, is_nd
 
 AMF = "fairlearn/metrics/_annotated_metric_function.py"
 MF = "fairlearn/metrics/_metric_frame.py"
 DM = "fairlearn/metrics/_make_derived_metric.py"
 
 
-class AnnotatedCall(Contract):
+class AnnotatedCall(NdContract):
+    """columns are arrays with one entry per row: shape (n,) for scalar labels, (n, d) for vector-valued rows (class probabilities, multi-output);
+    every argument of the metric must have exactly the rows of its column: same shape (the sample axis is kept also for n = 1) and same cells."""
     source, function = AMF, "AnnotatedMetricFunction.__call__"
 
-    def __init__(self, mapping):
-        self.mapping = dict(mapping)
-        self.variant = f"[{len(mapping)} keyword parameter(s)]"
+    def __init__(self, mapping, rank=1):
+        self.mapping, self.rank = dict(mapping), rank
+        self.variant = f"[{len(mapping)} keyword parameter(s), rows are {'scalars' if rank == 1 else 'vectors'}]"
 
     def params(self, eng, st):
         self.df = Abstract("frame", name="df")
         self.func = Abstract("metric")
+        self.n, self.d = z3.Int("n_rows_of_the_frame"), z3.Int("row_width")
+        st.assume(self.n >= 1, self.d >= 1)
         st.env.update({"self": Obj("AnnotatedMetricFunction", {"postional_argument_names": PyList(["y_true", "y_pred"]), "func": self.func,
                                                                "kw_argument_mapping": PyDict(self.mapping), "name": "m"}), "df": self.df})
-        self.called = None
+
+    def column(self, name):
+        shape = (self.n,) if self.rank == 1 or name not in ("y_true", "y_pred") else (self.n, self.d)
+        f = z3.Function(f"cell<{name}>", *([z3.IntSort()] * len(shape)), z3.RealSort())
+        return Nd(f"df[{name}]", shape, "series", "USER", cell=lambda *ix: f(*ix), column_of=(self.df, name), cellfn=f)
 
     def on_subscript(self, eng, st, node, base, index):
         if isinstance(base, Abstract) and base.tag == "frame" and isinstance(index, str):
-            return Abstract("col", of=base, name=index)
-        return NotImplemented
+            return self.column(index)
+        return super().on_subscript(eng, st, node, base, index)
 
     def on_call(self, eng, st, node, name, recv, args, kwargs):
-        if name == "list" and args and isinstance(args[0], Abstract) and args[0].tag == "col":
-            return Abstract("listed", col=args[0])
-        if name in ("numpy.asarray", "numpy.array") and args and isinstance(args[0], Abstract) and args[0].tag == "listed":
-            return Abstract("arr", col=args[0].col)
+        if name == "list" and args and is_nd(args[0]):
+            return self._derive(args[0], kind="list", prov="ERASED")
         if name == "$call" and recv is self.func:
-            self.called = (list(args), dict(kwargs))
+            st.ghost["called"] = (list(args), dict(kwargs))          # per-path ghost state (contract attributes are shared between paths)
             return Abstract("metric_value")
-        return NotImplemented
+        return super().on_call(eng, st, node, name, recv, args, kwargs)
 
     def post(self, eng, st, status, value):
-        if status != "return" or self.called is None:
+        if status != "return" or st.ghost.get("called") is None:
             return [("the_metric_is_called_and_its_value_returned", BoolVal(False))]
-        args, kw = self.called
+        args, kw = st.ghost["called"]
 
-        def is_col(v, nm):
-            return isinstance(v, Abstract) and v.tag == "arr" and v.col.of is self.df and v.col.name == nm
+        def rows_of(v, nm):
+            """v holds exactly the rows of column nm of the given frame, label free"""
+            if not (is_nd(v) and getattr(v, "column_of", None) is not None and v.column_of[0] is self.df and v.column_of[1] == nm and v.prov == "ERASED"):
+                return BoolVal(False)
+            want = self.column(nm)
+            if len(v.shape) != len(want.shape) or getattr(v, "cell", None) is None:
+                return BoolVal(False)
+            ix = (GI, GJ)[:len(want.shape)]
+            return And(*[lift(a) == lift(b) for a, b in zip(v.shape, want.shape)], z3.Implies(in_range(want.shape, ix), v.cell(*ix) == want.cell(*ix)))
         return [("returns_the_metric_value", BoolVal(isinstance(value, Abstract) and value.tag == "metric_value")),
-                ("positional_arguments_are_y_true_y_pred_of_the_given_frame", BoolVal(len(args) == 2 and is_col(args[0], "y_true") and is_col(args[1], "y_pred"))),
+                ("positional_arguments_are_the_rows_of_y_true_y_pred_of_the_given_frame",
+                 And(rows_of(args[0], "y_true"), rows_of(args[1], "y_pred")) if len(args) == 2 else BoolVal(False)),
                 ("keyword_arguments_are_exactly_the_mapped_columns_of_the_same_frame",
-                 BoolVal(set(kw) == set(self.mapping) and all(is_col(kw[k], c) for k, c in self.mapping.items())))]
+                 And(*[rows_of(kw[k], c) for k, c in self.mapping.items()]) if set(kw) == set(self.mapping) else BoolVal(False))]
 
 
 class ConstructAMF(Contract):
